@@ -891,12 +891,20 @@ func main() {
 	consts := flag.String("consts", "", "output Lean file")
 	skeleton := flag.String("skeleton", "", "output skeleton file")
 	locktable := flag.String("locktable", "", "output Lean lock table")
+	oracleOut := flag.String("oracle", "", "output Lean file: translated oracle kernels")
+	txnOut := flag.String("txn", "", "output Lean file: translated transaction decision logic")
 	flag.Parse()
 	if *locktable != "" {
 		genLockTable(*repo, *locktable)
 	}
 	if *consts != "" {
 		genConsts(*repo, *consts)
+	}
+	if *oracleOut != "" {
+		genOracle(*repo, *oracleOut)
+	}
+	if *txnOut != "" {
+		genTxn(*repo, *txnOut)
 	}
 	if *skeleton != "" {
 		genSkeleton(*repo, *skeleton)
